@@ -562,7 +562,14 @@ class RelativeJSONPointer:
     def _int_like(self, obj: Any) -> bool:
         if isinstance(obj, int):
             return True
-        return isinstance(obj, str) and bool(RE_INDEX_TOKEN.fullmatch(obj))
+        if not isinstance(obj, str) or not RE_INDEX_TOKEN.fullmatch(obj):
+            return False
+        try:
+            int(obj)
+        except ValueError:
+            # Too many digits for `int()`.
+            return False
+        return True
 
     def to(
         self,
